@@ -1,5 +1,6 @@
 #![allow(clippy::type_complexity)]
-use std::{cell::Cell, cell::RefCell, collections::VecDeque, fmt, num, rc::Rc};
+use std::task::{Context, Poll, Waker};
+use std::{cell::Cell, cell::RefCell, collections::VecDeque, fmt, future::Future, num, pin::Pin, rc::Rc};
 
 use ntex_bytes::{BytePages, Bytes, BytesMut};
 use ntex_codec::{Decoder, Encoder};
@@ -302,10 +303,8 @@ impl MqttShared {
         self.flags.set(flags);
 
         // streaming waiter
-        if let Some(tx) = self.streaming_waiter.take()
-            && tx.send(()).is_ok()
-        {
-            return;
+        if let Some(tx) = self.streaming_waiter.take() {
+            let _ = tx.send(());
         }
 
         // check if there are waiters
@@ -544,6 +543,20 @@ impl MqttShared {
         }
     }
 
+    /// Wake up next queued request if there is capacity for it
+    pub(super) fn wake_waiter(&self) {
+        let mut queues = self.queues.borrow_mut();
+        if queues.inflight.len() < self.cap.get()
+            && !self.flags.get().contains(Flags::WRB_ENABLED)
+        {
+            while let Some(tx) = queues.waiters.pop_front() {
+                if tx.send(()).is_ok() {
+                    break;
+                }
+            }
+        }
+    }
+
     pub(super) fn wait_readiness(&self) -> Option<pool::Receiver<()>> {
         let mut queues = self.queues.borrow_mut();
 
@@ -570,6 +583,59 @@ impl MqttShared {
         match self.io.encode(Encoded::Packet(codec::Packet::PublishRelease(pkt)), &self.codec) {
             Ok(()) => Ok(rx),
             Err(e) => Err(SendPacketError::Encode(e)),
+        }
+    }
+}
+
+/// Waits until the sink has capacity for one more request.
+///
+/// Capacity is re-checked after every wake-up, other request may have used it in the meantime.
+/// If this future is dropped after it has been woken up, wake-up is passed to the next
+/// queued request.
+pub(super) struct Readiness {
+    shared: Rc<MqttShared>,
+    rx: Option<pool::Receiver<()>>,
+}
+
+impl Readiness {
+    pub(super) fn new(shared: &Rc<MqttShared>, rx: Option<pool::Receiver<()>>) -> Self {
+        Self { rx, shared: shared.clone() }
+    }
+}
+
+impl Future for Readiness {
+    type Output = bool;
+
+    fn poll(self: Pin<&mut Self>, cx: &mut Context<'_>) -> Poll<bool> {
+        let this = self.get_mut();
+        loop {
+            if let Some(rx) = &this.rx {
+                match rx.poll_recv(cx) {
+                    Poll::Ready(Ok(())) => this.rx = None,
+                    Poll::Ready(Err(_)) => {
+                        this.rx = None;
+                        return Poll::Ready(false);
+                    }
+                    Poll::Pending => return Poll::Pending,
+                }
+            }
+            if this.shared.is_closed() {
+                return Poll::Ready(false);
+            }
+            match this.shared.wait_readiness() {
+                Some(rx) => this.rx = Some(rx),
+                None => return Poll::Ready(true),
+            }
+        }
+    }
+}
+
+impl Drop for Readiness {
+    fn drop(&mut self) {
+        if let Some(rx) = self.rx.take()
+            && let Poll::Ready(Ok(())) = rx.poll_recv(&mut Context::from_waker(Waker::noop()))
+        {
+            self.shared.wake_waiter();
         }
     }
 }
